@@ -152,10 +152,14 @@ class Script(Server):
 
     def begin(self, step, k):
         self.step, self.k, self.sent, self.reply = step, k, False, None
+        self.failed = False
 
     def on_connect(self, addr, timeout):
         t = socket.getdefaulttimeout() if timeout is SENTINEL else timeout
         self.net.trace.append(("connect", addr[0], t, self.net.now))
+        if self.step.get("fail") == "refused" and not self.failed:
+            self.failed = True  # the first attempt's dial is refused at once; the retried attempt goes through
+            raise ConnectionRefusedError(111, "Connection refused")
         d = self.step["d"]
         if t is not None:
             if not _is_num(t) or t <= 0:
@@ -191,6 +195,11 @@ class Script(Server):
         self.net.trace.append(("request", sock.sid, self.net.now))
         mode = self.step["mode"]
         body = b"reply-%d" % self.k
+        if self.step.get("fail") == "reset" and not self.failed:
+            self.failed = True  # the first attempt's request is received, then the connection is reset
+            self.sent = False
+            self.reply = [ConnectionResetError(104, "Connection reset by peer")]
+            return list(self.reply)
         if mode == "stall":
             self.reply = [STALL]
         elif mode == "close":
@@ -240,7 +249,7 @@ def execute(case):
                 before = (snap(pool_obj), snap(req_obj))
                 rkw = {} if req_obj is ABSENT else {"timeout": req_obj}
                 try:
-                    r = mgr.request("GET", _url(route, step["host"]), retries=False, **rkw)
+                    r = mgr.request("GET", _url(route, step["host"]), retries=case.get("retries", False), **rkw)
                     outcome = "ok" if (r.status == 200 and r.data == b"reply-%d" % k) else "bad-response:%r" % ((r.status, r.data),)
                 except Exception as ex:  # SimStall is a BaseException: propagates as a harness problem
                     outcome = _classify(ex)
@@ -406,6 +415,46 @@ def judge(case, obs):
     return out, classes
 
 
+def judge_retry(case, obs):
+    """family "retry": the first attempt fails at once (dial refused / reset after the request), retries=1. Every attempt
+    of the request is governed by the effective timeout: every dial and every CONNECT exchange waits min(connect, total),
+    every response wait min(read, total) (all scripted durations are zero, so no elapsed time enters)."""
+    out = []
+    route = case["route"]
+    t, c, r = eff = effective(case["pool"], case["req"])
+    other = triple(case["pool"]) if case["req"] is not None else None
+    C, R = ref_connect(*eff), ref_read(t, c, r, 0)
+    o = obs[0]
+    fail = case["steps"][0]["fail"]
+
+    def bad(clause, relation, observed, expected, diag="-"):
+        out.append((clause, {"route": route, "conn": "retried-attempt", "relation": relation, "diag": diag, "first_attempt": fail},
+                    {"value": observed}, expected))
+
+    if len(o["connects"]) != 2:
+        bad("retried-attempt-missing", "-", {"connects": o["connects"], "outcome": o["outcome"]}, "two dials: the failed attempt and its retry")
+        return out, [["retry-shape"]]
+    for i, got in enumerate(o["connects"]):
+        if not (_valid_sock_timeout(got) and got != 0 and lim(got) == C):
+            diag = "pool-level-values-used" if other and _valid_sock_timeout(got) and lim(got) == ref_connect(*other) else "-"
+            bad("connect-wait-value", _rel(got, [C]), {"attempt": i, "timeout": got}, sockval(C), diag)
+            return out, [["retry-connect-wrong"]]
+    wrong = [x for x in o["tunnel_reads"] if not (_valid_sock_timeout(x) and lim(x) == C and x != 0)]
+    if wrong:
+        bad("tunnel-wait-value", _rel(wrong[0], [C]), wrong[0], sockval(C))
+        return out, [["retry-tunnel-wrong"]]
+    for got in o["reads"]:
+        if not _valid_sock_timeout(got) or lim(got) != R:
+            diag = "pool-level-values-used" if other and _valid_sock_timeout(got) and lim(got) == ref_read(*other, 0) else "-"
+            bad("read-wait-value", _rel(got, [R]), got, sockval(R), diag)
+            return out, [["retry-read-wrong"]]
+    if o["outcome"] != "ok":
+        bad("response-outcome", "-", o["outcome"], "ok")
+    if o["mutated"]:
+        bad("caller-timeout-mutated", "-", "Timeout object changed by the request", "unchanged")
+    return out, [["retried-" + fail]]
+
+
 # ------------------------------------------------------------------------------ enumeration
 def histories(route, eff, thorough):
     """all single-measured-request histories for one effective configuration.  Scripts in which
@@ -469,7 +518,7 @@ def _chunks(lst, n):
 
 def check_case(case, acc, tag):
     obs = execute(case)
-    viols, classes = judge(case, obs)
+    viols, classes = judge_retry(case, obs) if case.get("family") == "retry" else judge(case, obs)
     acc.n += 1
     for cl in classes:
         acc.outcomes["/".join(cl)] += 1
@@ -488,9 +537,15 @@ def _worker_net(task):
     for placement, pool, req in cfgs:
         eff = effective(pool, req)
         nontrivial = any(lim(x) != INF for x in eff)
-        hs = histories(route, eff, thorough) if family == "net" else _seq_filter(seq_histories(thorough), eff)
+        if family == "retry":
+            # only where both waits are positive: nothing but the scripted failure makes the first attempt fail
+            hs = [[dict(mkstep(), fail=f)] for f in ("refused", "reset")] if (ref_connect(*eff) > 0 and ref_read(*eff, 0) > 0) else []
+        else:
+            hs = histories(route, eff, thorough) if family == "net" else _seq_filter(seq_histories(thorough), eff)
         for steps in hs:
             case = {"family": family, "route": route, "pool": pool, "req": req, "steps": steps}
+            if family == "retry":
+                case["retries"] = 1
             obs, viols = check_case(case, acc, family)
             acc.counters["placement:" + placement] += 1
             acc.counters["route:" + route] += 1
@@ -657,6 +712,10 @@ def run(ctx):
     for route in ROUTES:
         for ch in _chunks(seq_cfgs, 16):
             tasks.append(("seq", route, thorough, ch))
+    # a failed first attempt and its retry: the retried attempt is still THIS request
+    for route in ROUTES:
+        for ch in _chunks(cfgs, 48 if not thorough else 192):
+            tasks.append(("retry", route, thorough, ch))
     api = [(sp, el) for sp in ALL_SPECS for el in API_ELAPSED]
     tasks.append(("api", api))
     names = list(GOOD) + list(BAD)
@@ -717,7 +776,7 @@ def run(ctx):
 def replay(case):
     acc = Acc()
     fam = case.get("family")
-    if fam in ("net", "seq"):
+    if fam in ("net", "seq", "retry"):
         warnings.simplefilter("ignore")
         case = dict(case, pool=_spec(case["pool"]), req=_spec(case["req"]))
         obs, _ = check_case(case, acc, fam)
